@@ -522,6 +522,7 @@ func (c *CqlClientConnection) Send(f *frame.Frame) (InFlightRequest, error) {
 	if inFlight, err := c.inFlightHandler.onOutgoingFrameEnqueued(f); err != nil {
 		return nil, fmt.Errorf("%v: failed to register in-flight handler for frame: %v: %w", c, f, err)
 	} else {
+		verifGate("send.registered", int64(f.Header.StreamId))
 		select {
 		case c.outgoing <- f:
 			log.Debug().Msgf("%v: outgoing frame successfully enqueued: %v", c, f)
@@ -600,6 +601,7 @@ func (c *CqlClientConnection) setClosed() bool {
 
 func (c *CqlClientConnection) Close() (err error) {
 	if c.setClosed() {
+		verifGate("conn.close.cas", 0)
 		log.Debug().Msgf("%v: closing", c)
 		c.cancel()
 		err = c.conn.Close()
@@ -607,6 +609,7 @@ func (c *CqlClientConnection) Close() (err error) {
 		events := c.events
 		c.outgoing = nil
 		c.events = nil
+		verifGate("conn.close.chans", 0)
 		close(outgoing)
 		close(events)
 		c.inFlightHandler.close()
